@@ -21,6 +21,12 @@ CLAIMED = {
         'design': '6 C20',
         'technique': 'Coq proof (Reals) + source-translated expressions + extracted-model correspondence',
     },
+    'C19': {
+        'text': 'Coq theorems, for all lists of modifier-info entries (induction, no size bound), about an implementation-shaped model of ModInfoconverter.convert + DogmaModifier._valid + ModBuilder.build: the conversion never aborts and length mods + fails = length infos; an entry yields exactly one modifier iff it is well-formed, and then filter/domain/operator/attr/group/skill ids are those of the documented maps; every other entry is counted as a failure; only modifiers passing validation are emitted; build returns exactly the modifiers of the well-formed entries in order with status success / success_partial / error by the counts (empty info: success, no modifiers). Handler map, per-handler keys, domain and operator maps, validator domain lists, enum values, except clauses and exit conditions are re-translated from the source on every run and proved equal to the specification\'s constants by vm_compute; the extracted model is compared with the real ModBuilder exhaustively on the finite function x domain x operation x id-shape single-entry product (410k cases) and on sampled mixed lists.',
+        'note': 'Print Assumptions: closed under the global context for all 12 theorems; coqchk axioms none. Modelled, not verified: entries are JSON values (int, bool, finite float as exact rational, NaN/Inf, str, None, list/dict); CPython dict key equality and int() (string grammar for ASCII strings only: Unicode digits/spaces and the 4300-digit limit are excluded by name); isinstance(..., Integral) checks are discharged by typing because ids are results of int(). The pinned code does no YAML parsing (modifierInfo arrives JSON-decoded); the JSON codec and the real ModBuilder are exercised as glue. Out of scope: a non-list modifierInfo, an effect row without effectID. Describes /repo after fix commits 200b61d and 1eb84a0.',
+        'design': '6 C19',
+        'technique': 'Coq proof (induction over entry lists, refinement of a declarative spec) + source-translated tables with vm_compute obligations + exhaustive finite-product and sampled extracted-model correspondence',
+    },
 }
 
 NOT_YET = 'check not built yet in this session (construction order in DESIGN.md section 11); not claimed until its theorems and tie exist'
